@@ -523,7 +523,7 @@ func run(id, tier, only string, workers int, trace bool, replayFile, solver stri
 				samples = append(samples, s)
 			}
 			if w, ok := s["witness"].(map[string]uint64); ok {
-				okSamples[en.pkg] = append(okSamples[en.pkg], replayCase{Model: w, Harness: en.fn.Name(), Tier: tierN, Params: params, Tag: "sample"})
+				okSamples[en.pkg] = append(okSamples[en.pkg], replayCase{Model: w, Harness: en.fn.Name(), Tier: tierN, Params: params, Tag: fmt.Sprintf("sample-%d", len(okSamples[en.pkg]))})
 			}
 		}
 		for f := range sum.Funcs {
@@ -553,6 +553,7 @@ func run(id, tier, only string, workers int, trace bool, replayFile, solver stri
 	}
 	var verdicts []verdict
 	engineOnlyViol, engineOnlySamples := 0, 0
+	nativeRetries := 0
 	siteRepro := map[string]bool{}
 	siteMiss := map[string][]string{}
 	if len(allViol) > 0 || !noNative {
@@ -626,7 +627,25 @@ func run(id, tier, only string, workers int, trace bool, replayFile, solver stri
 					} else if o.Result == "engine-only" {
 						engineOnlySamples++
 					} else {
-						mismatches = append(mismatches, fmt.Sprintf("%s: passing path sample -> native %s %v %s", o.Harness, o.Result, o.Failed, o.Detail))
+						// harnesses that let goroutines settle by sleeping can miss their window on a
+						// loaded machine: such a case is run once more, alone, before it counts
+						var again []replayCase
+						for _, c := range cs {
+							if c.Tag == o.Tag && c.Harness == o.Harness {
+								again = append(again, c)
+							}
+						}
+						retried := false
+						if len(again) == 1 {
+							if outs2, _, err2 := nativeReplay(useFiles, p, entriesByPkg[p], again, filepath.Join(scratch, strings.ReplaceAll(p, "/", "_")+"_retry")); err2 == nil && len(outs2) == 1 && outs2[0].Result == "passed" {
+								retried = true
+								validated++
+								nativeRetries++
+							}
+						}
+						if !retried {
+							mismatches = append(mismatches, fmt.Sprintf("%s: passing path sample -> native %s %v %s", o.Harness, o.Result, o.Failed, o.Detail))
+						}
 					}
 				}
 			}
@@ -737,6 +756,7 @@ func run(id, tier, only string, workers int, trace bool, replayFile, solver stri
 			"inconclusive":                  inconclusive,
 			"engine_mismatches":             mismatches,
 			"engine_only_samples":           engineOnlySamples,
+			"native_samples_passed_on_solo_retry": nativeRetries,
 			"engine_only_violations":        engineOnlyViol,
 			"known_findings_hit":            keys(printedKnown),
 		},
